@@ -657,6 +657,12 @@ func w3Gen(r *rand.Rand, prop, tier string) *simrt.Case {
 			}
 		}
 		faults("etcd.unavail", "etcd.timeout_applied", "etcd.drop_keepalive.unavail", "etcd.partition.unavail", "etcd.slow")
+		if r.IntN(4) == 0 {
+			// any goroutine of the lease managers may get its lock late
+			for k := 0; k < 1+r.IntN(2); k++ {
+				c.Faults = append(c.Faults, simrt.Fault{Kind: "sched.stall", Op: "sched.lock", Key: "LeaseManager", Nth: r.IntN(60), Count: 1, Arg: int64(10+r.IntN(4000)) * 1e6})
+			}
+		}
 	}
 	return c
 }
